@@ -160,6 +160,16 @@ def statement(o, pou, s, si, indent="  "):
         o.w("FOR ").w(w[1], ("use", pou["n"], si, "wrap", w[1])).w(" := 1 TO 3 DO ")
         stmt_core(o, pou, s, si)
         o.w(" END_FOR;")
+    elif kind in ("forfrom", "forto", "forby"):
+        o.w("FOR ").w(w[2], ("use", pou["n"], si, "ctl", w[2])).w(" := ")
+        if kind == "forfrom":
+            o.w(w[1], ("use", pou["n"], si, "wrap", w[1])).w(" TO 3 DO ")
+        elif kind == "forto":
+            o.w("1 TO ").w(w[1], ("use", pou["n"], si, "wrap", w[1])).w(" DO ")
+        else:
+            o.w("1 TO 3 BY ").w(w[1], ("use", pou["n"], si, "wrap", w[1])).w(" DO ")
+        stmt_core(o, pou, s, si)
+        o.w(" END_FOR;")
     elif kind == "while":
         o.w("WHILE ")
         cond(o, pou, w[1], si)
